@@ -146,7 +146,7 @@ def hybrid(length_zero, run_kind, timeout):
     nb = 0
     for b in B["outs"]:
         if b.ctl not in (None, "continue"):
-            res.addk(f"hybrid.dispatch{tag}", "functional", REFUTED, {"ctl": str(b.ctl)}, 0.0, "trace", "a well-formed run must not end the loop / raise")
+            post(res, f"hybrid.dispatch{tag}", b.pc, z3.BoolVal(False), timeout, "a well-formed run must not end the loop / raise" + " [this path ends with " + str(b.ctl) + ": it must be infeasible]", mf)
             continue
         nb += 1
         cs = B["calls"]
@@ -338,7 +338,7 @@ def delta_unpack(longval, wpos, timeout):
         for b in SL["outs"]:
             is_ret = isinstance(b.ctl, tuple) and b.ctl[0] == "ret"
             if not (is_ret or b.ctl in (None, "continue")):
-                res.addk(f"delta.slot_step{tag}", "functional", REFUTED, {"ctl": str(b.ctl)}, 0.0, "trace", "a slot must not raise / break")
+                post(res, f"delta.slot_step{tag}", b.pc, z3.BoolVal(False), timeout, "a slot must not raise / break" + " [this path ends with " + str(b.ctl) + ": it must be infeasible]", mf)
                 continue
             ns += 1
             b.pc = list(b.pc) + list(b.axioms)
